@@ -249,28 +249,45 @@ public:
 
         QString pattern;
         if (suffix.isEmpty()) {
-            pattern = QStringLiteral("^%1\\.\\d{4}-\\d{2}-\\d{2}\\.\\d+(\\.gz)?$")
+            pattern = QStringLiteral("^%1\\.(\\d{4}-\\d{2}-\\d{2})\\.(\\d+)(\\.gz)?$")
                           .arg(QRegularExpression::escape(baseName));
         } else {
-            pattern = QStringLiteral("^%1\\.\\d{4}-\\d{2}-\\d{2}\\.\\d+\\.%2(\\.gz)?$")
+            pattern = QStringLiteral("^%1\\.(\\d{4}-\\d{2}-\\d{2})\\.(\\d+)\\.%2(\\.gz)?$")
                           .arg(QRegularExpression::escape(baseName),
                                QRegularExpression::escape(suffix));
         }
 
         auto re = QRegularExpression(pattern);
         auto dir = QDir(baseDir());
-        auto result = QStringList();
+
+        // The rotation order is recorded in the name: the day, then the index within that day.
+        // Modification times cannot be used, several rotations may share one timestamp.
+        struct RotatedFile
+        {
+            QString date;
+            int index;
+            QString path;
+        };
+        auto rotated = QList<RotatedFile>();
 
         const auto entries = dir.entryList(QDir::Files, QDir::Name);
         for (const QString &entry : entries) {
-            if (re.match(entry).hasMatch()) {
-                result.append(dir.filePath(entry));
+            const auto match = re.match(entry);
+            if (match.hasMatch()) {
+                rotated.append({ match.captured(1), match.captured(2).toInt(), dir.filePath(entry) });
             }
         }
 
-        std::sort(result.begin(), result.end(), [](const QString &a, const QString &b) {
-            return QFileInfo(a).lastModified() < QFileInfo(b).lastModified();
+        std::sort(rotated.begin(), rotated.end(), [](const RotatedFile &a, const RotatedFile &b) {
+            if (a.date != b.date)
+                return a.date < b.date;
+            return a.index < b.index;
         });
+
+        auto result = QStringList();
+        for (const auto &file : std::as_const(rotated)) {
+            result.append(file.path);
+        }
 
         return result;
     }
